@@ -154,3 +154,8 @@ Definition rec_lineb (x : recordR) : bool :=
   (rune_count (render_rec T x) =? 94) && wf_utf8 (render_rec T x).
 
 End WithLayouts.
+
+(* no literal of the layout holds a CR or LF *)
+Definition lits_no_nl (L : layout) : bool :=
+  forallb (fun s => match s with SLit bs => no_nl bs | _ => true end) (l_segs L)
+  && forallb (fun c => match c_const c with Some bs => no_nl bs | None => true end) (l_cuts L).
